@@ -377,6 +377,15 @@ func genC19(tier string, r *rng, emit func(string)) {
 		}
 	}
 	genMaskHistories(tier, r, emit)
+	// products given BOTH a reuse and an incr tensor, followed by allocations that recycle whatever was
+	// handed to the pool: the caller's reuse tensor must stay alive and intact
+	for _, op := range []string{"lin:matmul:0:1", "lin:matvec:0:4", "lin:outer:4:4"} {
+		res := map[string]string{"lin:matmul:0:1": "2,2", "lin:matvec:0:4": "2", "lin:outer:4:4": "2,2"}[op]
+		pre := fmt.Sprintf("new:rm:2,2:1;new:rm:2,2:5;new:rm:%s:0;new:rm:%s:100;new:rm:2:3", res, res)
+		emit(fmt.Sprintf("prog f64 %s;%s:both.2.3;new:rm:2,2:9;clone:0;slice:0:0.1.1/_", pre, op))
+		emit(fmt.Sprintf("prog f64 %s;%s:reuse.2;new:rm:2,2:9;clone:0", pre, op))
+		emit(fmt.Sprintf("prog f64 %s;%s:incr.3;new:rm:2,2:9;clone:0", pre, op))
+	}
 	// caller-owned axes slices: T with explicit axes followed by every way of dropping the thunk
 	for _, sh := range allShapes(4, 3) {
 		if len(sh) < 2 {
